@@ -50,6 +50,14 @@ pub broadcast proof fn lemma_ext_clear2(x: u8)
     assert(x < 128 ==> (x & !0x80u8) == x) by (bit_vector);
 }
 
+pub broadcast proof fn lemma_and7f(x: u8)
+    ensures
+        #![trigger (x & 0x7fu8)]
+        (x & 0x7fu8) == (x & !0x80u8),
+{
+    assert((x & 0x7fu8) == (x & !0x80u8)) by (bit_vector);
+}
+
 pub broadcast proof fn lemma_or_ext(x: u8)
     requires x < 128,
     ensures
